@@ -10,6 +10,8 @@
 -/
 import EEM.Model.PredictFrame
 import EEM.Model.Dst
+import EEM.Gen.UsageReads
+import EEM.Spec.UsageReads
 
 namespace EEM.Props.C05
 open EEM.Model.PredictFrame
@@ -94,5 +96,22 @@ theorem C05_hourly_dst_ops_ignore_observed (hours : List Nat) :
 example : ∃ o ∈ outRows (α := Nat) (β := Nat) .nonFinite true (fun _ => ["fw-su_sh_wi"]) (fun _ T => T + 1)
     { t := 0, season := "summer", dow := 1, temperature := .fin 50, observed := .fin 3 }, o.predicted = some 51 :=
   ⟨_, List.mem_singleton.mpr rfl, rfl⟩
+
+/-! ### T1: where the source touches the usage column on a prediction path -/
+
+/-- **the statements that mention the usage column on any `predict` path are exactly the reviewed ones** — for the daily,
+billing, weighted-billing, hourly and CalTRACK-hourly families, on the table regenerated from the source on every run.  The
+frozen list (`EEM.Spec.UsageReads`, with the role of each site) contains only: the CalTRACK 3.5.1.1 mask and the row filter
+(presence, not value), the aggregation of the column into itself, fit-only statements, the matching of calendar cells the
+baseline never saw (excluded by the property's hypothesis), a derived column that is not a model input, and the CalTRACK
+uncertainty.  A new or changed read of the reporting period's usage on a prediction path breaks this equality. -/
+theorem C05_src_usage_reads_are_the_reviewed_ones :
+    EEM.Gen.UsageReads.usageReads = EEM.Spec.UsageReads.sites := by
+  decide +kernel
+
+/-- the reviewed list is not empty and covers every family -/
+example : ∀ f ∈ ["daily", "billing", "billing_weighted", "hourly", "caltrack"],
+    f ∈ EEM.Spec.UsageReads.sites.map (·.1) := by
+  decide +kernel
 
 end EEM.Props.C05
